@@ -175,7 +175,20 @@ def blocks : Op := fun j => do
   | _ => pure ()
   return Json.mkObj fields
 
-def ops : List (String × Op) := [
+/-- server address seen by the handler -/
+def serverAddrOp : Op := fun j => do
+  let sn ← getArr j "sockname"
+  let host ← (sn[0]?.getD Json.null).getStr?
+  let port ← (sn[1]?.getD Json.null).getNat?
+  let flow ← (sn[2]?.getD Json.null).getNat?
+  let scope ← (sn[3]?.getD Json.null).getNat?
+  let dst : Option (List Char) := match j.getObjVal? "dst" with
+    | .ok (Json.str d) => some d.toList
+    | _ => none
+  let a := serverAddr dst ⟨host.toList, port, flow, scope⟩
+  return jArr [jChars a.host, jNat a.port, jNat a.flow, jNat a.scope]
+
+def ops : List (String × Op) := [("tftp.serveraddr", serverAddrOp),
   ("tftp.transfer", transfer), ("tftp.session", session), ("tftp.blocks", blocks)]
 
 end Driver.Tftp
